@@ -37,8 +37,10 @@ def run(cmd, cwd=None, timeout=3600, env=None):
 
 class Lock:
     def __init__(self, name):
-        os.makedirs(WORK, exist_ok=True)
-        self.path = os.path.join(WORK, name)
+        # coq/ is shared between runs against /repo and runs against another checkout (VERIF_REPO)
+        d = os.path.join(ROOT, "work") if name.startswith("coq") else WORK
+        os.makedirs(d, exist_ok=True)
+        self.path = os.path.join(d, name)
 
     def __enter__(self):
         self.f = open(self.path, "w")
